@@ -1619,6 +1619,111 @@ fn unknown_stream<T: Fam + std::panic::RefUnwindSafe>(rec: &mut Recorder, seed: 
     }
 }
 
+/// offsets in `b` after 0, 1, 2, … complete top-level fields, as far as the field iterator reads
+/// complete fields (independent splitter; the tag must be one `Tag::unpack` accepts)
+fn field_boundaries(b: &[u8]) -> Vec<usize> {
+    let mut at = 0usize;
+    let mut out = vec![0usize];
+    while at < b.len() {
+        match split_field(&b[at..]) {
+            Some((num, _wt, _, total)) if num >= 1 && num <= (1 << 29) - 1 && !(19000..=19999).contains(&num) => {
+                at += total;
+                out.push(at);
+            }
+            _ => break,
+        }
+    }
+    out
+}
+
+/// `unknown_fields_skipped_anywhere` on the implementation: a hostile (mutated, possibly truncated
+/// or garbage-tailed) buffer of a struct type, an unknown field inserted at one of the field
+/// boundaries of the iterator's own reading of it — the result (value or error) must not change
+fn unknown_anywhere_stream<T: Fam + std::panic::RefUnwindSafe>(rec: &mut Recorder, seed: u64, stream: u64, n: u64) {
+    let sch = T::sch();
+    let top = frame_of(&sch);
+    if top.kind != 's' {
+        return;
+    }
+    let schs = sch.show();
+    for i in 0..n {
+        put(rec, |rec| {
+            let v: T = gen_value::<T>(seed, stream, i, false);
+            let mut rng = Rng::for_case(seed, stream + 1000, i);
+            let mut tree = enc_msg(&sch, &v.mval());
+            let mut labels = vec![];
+            for _ in 0..rng.below(3) {
+                let nn = count_nodes(&tree);
+                if nn == 0 {
+                    break;
+                }
+                let mut target = rng.below(nn as u64) as usize;
+                let kind = rng.below(10);
+                if let Some(l) = mutate_at(&mut tree, &mut target, kind, &mut rng) {
+                    labels.push(l);
+                }
+            }
+            let mut original = ser(&tree);
+            if rng.chance(1, 2) {
+                labels.push(post_mutate(&mut rng, &mut original));
+            }
+            let bounds = field_boundaries(&original);
+            let p = bounds[rng.below(bounds.len() as u64) as usize];
+            let mut label = "";
+            let mut u = unknown_node(&top.known, &mut rng, &mut label);
+            if rng.chance(1, 4) {
+                // the inserted field itself non-minimally encoded (tag, or varint value / length prefix)
+                if rng.chance(1, 2) {
+                    u.tag_pad = gen_pad(&mut rng);
+                    if u.tag_pad.extra >= 9 {
+                        u.tag_pad.extra = 4;
+                    }
+                    u.tag_pad.junk = 0;
+                } else if let Body::Varint(_, pad) = &mut u.body {
+                    *pad = Pad { extra: 1 + rng.below(3) as usize, junk: 0 };
+                }
+                label = "unknown-non-minimal";
+            }
+            let mut ub = ser(&[u.clone()]);
+            if field_boundaries(&ub) != vec![0, ub.len()] {
+                // the padding pushed a varint beyond ten bytes: not a field any more; insert it minimal
+                u.tag_pad = NOPAD;
+                if let Body::Varint(_, pad) = &mut u.body {
+                    *pad = NOPAD;
+                }
+                ub = ser(&[u]);
+                label = "unknown-number";
+            }
+            let mut bytes = original[..p].to_vec();
+            bytes.extend_from_slice(&ub);
+            bytes.extend_from_slice(&original[p..]);
+            let req = format!("proto unpack {} | {}", schs, hex(&bytes));
+            let (b1, b2) = (original.clone(), bytes.clone());
+            let r0 = guarded(move || T::unpack_obs(&b1));
+            let r = guarded(move || T::unpack_obs(&b2));
+            rec.count(&format!("unknown_anywhere.{}", label));
+            rec.count(&format!("unknown_anywhere.base_{}", outcome_key(&r0)));
+            rec.count(if p == original.len() { "unknown_anywhere.at_end" } else if p == 0 { "unknown_anywhere.at_start" } else { "unknown_anywhere.inside" });
+            if bounds.last() != Some(&original.len()) {
+                rec.count("unknown_anywhere.tail_is_not_complete_fields");
+            }
+            let verdict = match (&r0, &r) {
+                (_, Err(m)) | (Err(m), _) => fail(
+                    if nested_trailing(&sch, &bytes) || nested_trailing(&sch, &original) { "nested-enum-trailing-bytes" } else { "panic" },
+                    format!("unpack panicked: {}", m),
+                ),
+                (Ok(a), Ok(b)) if a == b => Verdict::Ok,
+                (a, b) => fail(
+                    "unknown-field-disturbs",
+                    format!("at offset {} of {}: without the unknown field: {}; with it: {}", p, hex(&original), show_unpack(a), show_unpack(b)),
+                ),
+            };
+            let nt = Some(fnv(req.as_bytes()));
+            (req, show_unpack(&r), verdict, nt)
+        });
+    }
+}
+
 /// every byte string `prefix ++ [b]`, b = 0..=255, as one batch case
 fn exhaustive_batch<T: Fam + std::panic::RefUnwindSafe>(rec: &mut Recorder, schs: &str, sch: &Sch, prefix: &[u8]) {
     put(rec, |rec| {
@@ -1930,8 +2035,9 @@ fn wire_tags(rec: &mut Recorder, args: &Args) {
                     let w = prototk::WireType::new(wt).map_err(|e| code_of(&e))?;
                     let t = prototk::Tag { field_number: f, wire_type: w };
                     let b = stack_pack(t).to_vec();
+                    let sz = t.pack_sz();
                     let back = <prototk::Tag as Unpackable>::unpack(&b).map(|(t, rest)| (t.field_number.get(), t.wire_type.tag_bits(), rest.len()));
-                    Ok::<_, String>((b, back.map_err(|e| code_of(&e))))
+                    Ok::<_, String>((b, sz, back.map_err(|e| code_of(&e))))
                 });
                 rec.count("tag.enc");
                 let valid_num = num >= 1 && num <= (1 << 29) - 1 && !(19000..=19999).contains(&num);
@@ -1943,13 +2049,13 @@ fn wire_tags(rec: &mut Recorder, args: &Args) {
                         let verdict = if (!valid_num || wt_of(wt).is_none()) && code == expected { Verdict::Ok } else { fail("tag-rejection", format!("got {}", code)) };
                         (req, format!("err {}", code), verdict, nt)
                     }
-                    Ok(Ok((b, back))) => {
-                        let verdict = if valid_num && wt_of(wt).is_some() && back == Ok((num as u32, wt, 0)) && b == canonical((num << 3) | wt as u64) {
+                    Ok(Ok((b, sz, back))) => {
+                        let verdict = if valid_num && wt_of(wt).is_some() && back == Ok((num as u32, wt, 0)) && b == canonical((num << 3) | wt as u64) && sz == b.len() {
                             Verdict::Ok
                         } else {
-                            fail("tag-roundtrip", format!("bytes {} decode {:?}", hex(&b), back))
+                            fail("tag-roundtrip", format!("bytes {} pack_sz {} decode {:?}", hex(&b), sz, back))
                         };
-                        (req, hex(&b), verdict, nt)
+                        (req, format!("{} {}", hex(&b), sz), verdict, nt)
                     }
                 }
             });
@@ -2224,12 +2330,253 @@ fn wire_fields(rec: &mut Recorder, args: &Args) {
 }
 
 // ------------------------------------------------------------------------------------------------
+// v64::unpack as the code has it: slow decoder below ten bytes, unrolled dispatch from ten on
+// (model: Blue.Varint.unpack, with the `bytes` field of the overflow error)
+// ------------------------------------------------------------------------------------------------
+
+/// the `bytes` atom of `varint_overflow(bytes)`, read from the S-expression text of the error
+fn bytes_field(e: &SError) -> String {
+    let t = e.to_string();
+    match t.find("(bytes ") {
+        Some(i) => t[i + 7..].chars().take_while(|c| c.is_ascii_digit()).collect(),
+        None => "?".into(),
+    }
+}
+
+fn real_varint_unpack(b: &[u8]) -> Result<(u64, usize), (String, String)> {
+    match <v64 as Unpackable>::unpack(b) {
+        Ok((v, rest)) => Ok((v.into(), b.len() - rest.len())),
+        Err(e) => Err((code_of(&e), bytes_field(&e))),
+    }
+}
+
+fn show_varint_unpack(r: &Result<Result<(u64, usize), (String, String)>, String>) -> String {
+    match r {
+        Err(_) => "panic".into(),
+        Ok(Err((c, b))) => format!("err {} bytes={}", c, b),
+        Ok(Ok((v, n))) => format!("ok {} {}", v, n),
+    }
+}
+
+fn wire_unpack_paths(rec: &mut Recorder, args: &Args) {
+    let mut bufs: Vec<(Vec<u8>, &'static str)> = vec![];
+    // every length around the boundary, every position of the terminating byte, several fills
+    for len in 0..=13usize {
+        for fill in [0x80u8, 0xff, 0x81, 0xaa] {
+            bufs.push((vec![fill; len], "all-continuation"));
+            for k in 0..len {
+                for last in [0x00u8, 0x01, 0x02, 0x03, 0x40, 0x7e, 0x7f] {
+                    if fill != 0x80 && fill != 0xff && !(last == 0x01 || last == 0x7f) {
+                        continue;
+                    }
+                    let mut b = vec![fill; len];
+                    b[k] = last;
+                    bufs.push((b, if k == 9 { "tenth-byte-terminates" } else if k > 9 { "eleventh-or-later" } else { "terminator-at-k" }));
+                }
+            }
+        }
+    }
+    // nine continuation bytes and a tenth byte of every value, followed by 0, 1, 2 more bytes
+    for tenth in 0..=255u8 {
+        for extra in 0..=2usize {
+            for fill in [0x80u8, 0xff] {
+                if extra > 0 && fill == 0xff && tenth % 16 != 1 {
+                    continue;
+                }
+                let mut b = vec![fill; 9];
+                b.push(tenth);
+                b.extend(std::iter::repeat(0x55u8).take(extra));
+                bufs.push((b, if tenth >= 0x80 { "continuation-in-byte-9" } else if tenth > 1 { "tenth-byte-above-1" } else { "tenth-byte-0-or-1" }));
+            }
+        }
+    }
+    // canonical encodings of boundary values (all >= 2^63 included) with trailers that straddle ten bytes
+    let mut rng = Rng::for_case(args.seed, 14, 0);
+    for v in boundaries_u64() {
+        let c = canonical(v);
+        for total in [c.len(), c.len() + 1, 9, 10, 11, 12, 20] {
+            if total < c.len() {
+                continue;
+            }
+            let mut b = c.clone();
+            let fill = *rng.pick(&[0x00u8, 0x80, 0xff, 0x01]);
+            b.extend(std::iter::repeat(fill).take(total - c.len()));
+            bufs.push((b, if v >= 1 << 63 { "value-at-least-2^63" } else { "canonical-with-trailer" }));
+        }
+        // non-minimal forms padded out to exactly 9, 10, 11 bytes
+        for total in [9usize, 10, 11] {
+            if total > c.len() {
+                let mut o = vec![];
+                put_varint(&mut o, v, &Pad { extra: total - c.len(), junk: 0 });
+                bufs.push((o, "non-minimal-to-boundary"));
+            }
+        }
+    }
+    let n_rand = if args.thorough { 20000 } else { 1500 };
+    for _ in 0..n_rand {
+        let len = rng.range(0, 13) as usize;
+        let mut b: Vec<u8> = (0..len).map(|_| (rng.next() as u8) | 0x80).collect();
+        if len > 0 && rng.chance(2, 3) {
+            let k = rng.below(len as u64) as usize;
+            b[k] &= 0x7f;
+        }
+        if len > 9 && rng.chance(1, 3) {
+            b[9] = *rng.pick(&[0x00u8, 0x01, 0x02, 0x7f, 0x80, 0xff]);
+        }
+        bufs.push((b, "random"));
+    }
+    for (b, label) in bufs {
+        put(rec, |rec| {
+            let req = format!("wire unpack {}", hex(&b));
+            let r = guarded({
+                let b = b.clone();
+                move || real_varint_unpack(&b)
+            });
+            rec.count(&format!("varint.unpack.{}", if b.len() < 10 { "slow_path" } else { "fast_path" }));
+            rec.count(&format!("varint.unpack.len{:02}", b.len()));
+            rec.count(&format!("varint.unpack.{}", label));
+            // oracle 1 (independent decoder, protobuf encoding document + the ten-byte limit + u64
+            // wrap-around): value and length, or an overflow error carrying the buffer length
+            let reference = get_varint(&b);
+            let mut fails = vec![];
+            let mut class = "varint-unpack";
+            match (&r, reference) {
+                (Err(m), _) => {
+                    class = "panic";
+                    fails.push(format!("panicked: {}", m.replace('\n', " ")));
+                }
+                (Ok(Ok(got)), Some(want)) if *got == want => {}
+                (Ok(Err((c, n))), None) if c == "varint-overflow" && *n == b.len().to_string() => {}
+                (Ok(other), want) => fails.push(format!("got {:?}, reference {:?} (len {})", other, want, b.len())),
+            }
+            // oracle 2 (implementation against itself): the other decoder on the same varint.  A
+            // long buffer whose varint ends within nine bytes is cut to nine bytes (slow decoder);
+            // a short buffer is padded with zeros to ten bytes (unrolled dispatch)
+            if let Ok(Ok((v, n))) = &r {
+                let other: Vec<u8> = if b.len() >= 10 && *n <= 9 {
+                    b[..9].to_vec()
+                } else if b.len() < 10 {
+                    let mut o = b.clone();
+                    o.resize(10, 0);
+                    o
+                } else {
+                    vec![]
+                };
+                if !other.is_empty() {
+                    rec.count("varint.unpack.fast_vs_slow_compared");
+                    let o2 = guarded(move || real_varint_unpack(&other));
+                    if o2 != Ok(Ok((*v, *n))) {
+                        if class != "panic" {
+                            class = "varint-fast-slow";
+                        }
+                        fails.push(format!("the other decoder gives {:?}", o2));
+                    }
+                }
+            }
+            let verdict = if fails.is_empty() { Verdict::Ok } else { fail(class, fails.join("; ")) };
+            let nt = Some(fnv(req.as_bytes()));
+            (req, show_varint_unpack(&r), verdict, nt)
+        });
+    }
+}
+
+// ------------------------------------------------------------------------------------------------
+// pack_sz of every field type (model: Blue.ProtoMsg.szScalar — the sum the code adds up)
+// ------------------------------------------------------------------------------------------------
+
+fn ssz_real(name: &str, v: &V) -> Option<(Vec<u8>, usize)> {
+    use prototk::field_types as ft;
+    macro_rules! go {
+        ($e:expr) => {{
+            let x = $e;
+            Some((stack_pack(&x).to_vec(), x.pack_sz()))
+        }};
+    }
+    match (name, v) {
+        ("int32", V::I(i)) => go!(ft::int32(*i as i32)),
+        ("int64", V::I(i)) => go!(ft::int64(*i as i64)),
+        ("uint32", V::I(i)) => go!(ft::uint32(*i as u32)),
+        ("uint64", V::I(i)) => go!(ft::uint64(*i as u64)),
+        ("sint32", V::I(i)) => go!(ft::sint32(*i as i32)),
+        ("sint64", V::I(i)) => go!(ft::sint64(*i as i64)),
+        ("Bool", V::I(i)) => go!(ft::Bool(*i != 0)),
+        ("fixed32", V::I(i)) => go!(ft::fixed32(*i as u32)),
+        ("fixed64", V::I(i)) => go!(ft::fixed64(*i as u64)),
+        ("sfixed32", V::I(i)) => go!(ft::sfixed32(*i as i32)),
+        ("sfixed64", V::I(i)) => go!(ft::sfixed64(*i as i64)),
+        ("float", V::I(i)) => go!(ft::float(f32::from_bits(*i as u32))),
+        ("double", V::I(i)) => go!(ft::double(f64::from_bits(*i as u64))),
+        ("bytes", V::X(b)) => go!(ft::bytes(b)),
+        ("bytes16", V::X(b)) => go!(ft::bytes16(b.as_slice().try_into().ok()?)),
+        ("bytes32", V::X(b)) => go!(ft::bytes32(b.as_slice().try_into().ok()?)),
+        ("bytes64", V::X(b)) => go!(ft::bytes64(b.as_slice().try_into().ok()?)),
+        ("string", V::X(b)) => go!(ft::string(std::str::from_utf8(b).ok()?)),
+        _ => None,
+    }
+}
+
+fn wire_sizes(rec: &mut Recorder, args: &Args) {
+    let mut inputs: Vec<(&'static str, V)> = vec![];
+    for v in boundaries_u64() {
+        inputs.push(("uint64", V::I(v as i128)));
+        inputs.push(("fixed64", V::I(v as i128)));
+        inputs.push(("double", V::I(v as i128)));
+        if v <= u32::MAX as u64 {
+            inputs.push(("uint32", V::I(v as i128)));
+            inputs.push(("fixed32", V::I(v as i128)));
+            inputs.push(("float", V::I(v as i128)));
+        }
+        if v <= 1 {
+            inputs.push(("Bool", V::I(v as i128)));
+        }
+    }
+    for v in boundaries_i64() {
+        inputs.push(("int64", V::I(v as i128)));
+        inputs.push(("sint64", V::I(v as i128)));
+        inputs.push(("sfixed64", V::I(v as i128)));
+        if v >= i32::MIN as i64 && v <= i32::MAX as i64 {
+            inputs.push(("int32", V::I(v as i128)));
+            inputs.push(("sint32", V::I(v as i128)));
+            inputs.push(("sfixed32", V::I(v as i128)));
+        }
+    }
+    let mut rng = Rng::for_case(args.seed, 15, 0);
+    for n in [0usize, 1, 2, 126, 127, 128, 129, 255, 256, 16383, 16384, 16385, 70000] {
+        inputs.push(("bytes", V::X(rng.bytes(n))));
+        inputs.push(("string", V::X(vec![b'a' + (n % 26) as u8; n])));
+    }
+    inputs.push(("bytes16", V::X(rng.bytes(16))));
+    inputs.push(("bytes32", V::X(rng.bytes(32))));
+    inputs.push(("bytes64", V::X(rng.bytes(64))));
+    for (t, v) in inputs {
+        put(rec, |rec| {
+            let req = format!("wire ssz {} {}", t, v.show());
+            let r = guarded({
+                let v = v.clone();
+                move || ssz_real(t, &v)
+            });
+            rec.count(&format!("scalar_size.{}", t));
+            let nt = Some(fnv(req.as_bytes()));
+            match r {
+                Err(m) => (req, "panic".into(), fail("panic", m), nt),
+                Ok(None) => (req, "bad-value".into(), fail("harness", "value does not fit the field type".into()), nt),
+                Ok(Some((b, sz))) => {
+                    let verdict = if sz == b.len() { Verdict::Ok } else { fail("pack-sz", format!("pack_sz {} but {} bytes written", sz, b.len())) };
+                    (req, format!("{} {}", hex(&b), sz), verdict, nt)
+                }
+            }
+        });
+    }
+}
+
+// ------------------------------------------------------------------------------------------------
 
 fn one_type<T: Fam + std::panic::RefUnwindSafe>(rec: &mut Recorder, args: &Args, stream: u64, sweep: bool, t: &Tier, exhaustive: Option<u8>) {
     let n = if sweep { t.n_round + 209 } else { t.n_round };
     roundtrip_stream::<T>(rec, args.seed, stream, n, sweep);
     hostile_stream::<T>(rec, args.seed, stream + 1, t);
     unknown_stream::<T>(rec, args.seed, stream + 2, t.n_unknown);
+    unknown_anywhere_stream::<T>(rec, args.seed, stream + 3, t.n_unknown);
     if let Some(three) = exhaustive {
         exhaustive_stream::<T>(rec, three);
     }
@@ -2264,6 +2611,8 @@ pub fn run(args: &Args) {
     wire_tags(&mut rec, args);
     wire_scalars(&mut rec, args);
     wire_fields(&mut rec, args);
+    wire_unpack_paths(&mut rec, args);
+    wire_sizes(&mut rec, args);
     d21_minimal(&mut rec);
     let three: u8 = if args.thorough { 2 } else { 1 };
     one_type::<Ints>(&mut rec, args, 100, true, &t, Some(three));
@@ -2284,7 +2633,7 @@ pub fn run(args: &Args) {
     one_type::<TopRes>(&mut rec, args, 250, false, &t, Some(0));
     one_type::<TopResEnum>(&mut rec, args, 260, false, &t, None);
     rec.finish(
-        "wire level: v64 pack at every power of two +-1 and unpack of 0..11-byte bodies (all 1-byte, boundary and non-minimal forms, over-long) each raw (slow path) and padded to >= 10 bytes (fast path); zig-zag, tags (field-number and wire-type boundaries), every field type's unpack on boundary / truncated / non-minimal inputs, FieldIterator on valid and mutated buffers. messages: 17 derived types covering every field type and container; per type seeded values (integer fields swept over every power of two +-1, floats over 14 special bit patterns) packed and unpacked, structure-aware mutations of valid encodings, every prefix of valid encodings, unknown fields inserted into struct frames, and all byte strings up to length 2 (plus length 3 per tier) for selected types. non-trivial = a wire case with a non-empty request, a message case whose encoding is non-empty; distinct by request text",
+        "wire level: v64 pack at every power of two +-1 and unpack of 0..11-byte bodies (all 1-byte, boundary and non-minimal forms, over-long) each raw (slow path) and padded to >= 10 bytes (fast path); v64::unpack against the two-decoder model (Blue.Varint.unpack, with the bytes field of the overflow error) on buffers of 0..13 bytes with the terminating byte at every position, nine continuation bytes followed by every tenth byte, boundary values (all >= 2^63) with trailers straddling ten bytes, non-minimal forms of exactly 9/10/11 bytes, random continuation-heavy buffers; pack_sz of every field type at the integer boundaries and at length-prefix boundaries against the model's szScalar; zig-zag, tags (field-number and wire-type boundaries), every field type's unpack on boundary / truncated / non-minimal inputs, FieldIterator on valid and mutated buffers. messages: 17 derived types covering every field type and container; per type seeded values (integer fields swept over every power of two +-1, floats over 14 special bit patterns) packed and unpacked, structure-aware mutations of valid encodings, every prefix of valid encodings, unknown fields inserted into struct frames of valid encodings, unknown fields (also non-minimally encoded) inserted at a field boundary of MUTATED / truncated / garbage-tailed buffers of struct types with the result compared against the buffer without them, and all byte strings up to length 2 (plus length 3 per tier) for selected types. non-trivial = a wire case with a non-empty request, a message case whose encoding is non-empty; distinct by request text",
         &[],
     );
 }
